@@ -26,6 +26,15 @@ def re_pred(pattern: str, flags: int, how: str) -> z3.FuncDeclRef:
     return _re_funcs[k]
 
 
+def re_group(pattern: str, flags: int, how: str, k: int) -> z3.FuncDeclRef:
+    """group k of the match of `pattern` on a subject, as a function of the subject (A-regex-group: a
+    participating str group; deterministic, so two reads agree)"""
+    key = (pattern, flags, how, "group", k)
+    if key not in _re_funcs:
+        _re_funcs[key] = z3.Function(f"re_{how}_group{k}_{len(_re_funcs)}", z3.StringSort(), z3.StringSort())
+    return _re_funcs[key]
+
+
 def zstr(x: Any) -> z3.ExprRef:
     return x if V.is_z3(x) else z3.StringVal(x)
 
@@ -425,7 +434,8 @@ def method(I, recv: Any, name: str, pos: list, kw: dict, st: State) -> Iterator[
             if isinstance(s, str):
                 import re as _re
 
-                yield st, SMatch(getattr(_re.compile(recv.pattern, recv.flags), name)(s) is not None, recv.pattern)
+                real = getattr(_re.compile(recv.pattern, recv.flags), name)(s)
+                yield st, SMatch(real is not None, recv.pattern, (recv.pattern, recv.flags, name), s, real)
                 return
             if not is_strish(s):
                 if V.is_z3(s) and s.sort() == V.Val:
@@ -433,12 +443,22 @@ def method(I, recv: Any, name: str, pos: list, kw: dict, st: State) -> Iterator[
                 else:
                     raise OutsideSubset("regex on a non-string")
             ok = re_pred(recv.pattern, recv.flags, name)(zstr(s))
-            yield st, SMatch(ok, f"{recv.pattern}")
+            yield st, SMatch(ok, f"{recv.pattern}", (recv.pattern, recv.flags, name), zstr(s))
             return
         if name == "sub":
             yield st, fresh("re.sub", z3.StringSort())
             return
     if isinstance(recv, SMatch):
+        if name == "group" and len(pos) <= 1 and all(isinstance(k, int) for k in pos) and recv.rx is not None:
+            k = pos[0] if pos else 0
+            if recv.real is not None:
+                yield st, recv.real.group(k)
+                return
+            if recv.real is None and isinstance(recv.subject, str):
+                yield st, Raised(SExc("AttributeError", note="group on a failed match"))
+                return
+            yield st, re_group(*recv.rx, k)(recv.subject)
+            return
         if name in ("group", "groups", "end", "start"):
             yield st, fresh("match.group", z3.StringSort())
             return
@@ -524,10 +544,39 @@ def str_method(I, s: Any, name: str, pos: list, kw: dict, st: State) -> Iterator
         f = z3.Function(f"str_{name}", z3.StringSort(), z3.BoolSort())
         yield st, f(z)
         return
-    if name in ("find", "index", "rfind", "count"):
-        if name == "find" and len(pos) == 1:
-            yield st, z3.IndexOf(z, zstr(pos[0]), 0)
-            return
+    if name in ("find", "index", "rfind", "rindex") and 1 <= len(pos) <= 3 and is_strish(pos[0]):
+        # exact semantics over the clamped window [lo, hi): first / last occurrence, -1 or ValueError when absent
+        sub = zstr(pos[0])
+        L = z3.Length(z)
+
+        def clamp(x, default):
+            if x is None:
+                return default
+            from verif.pyvc.exprs import clamp_index
+
+            return clamp_index(I, st, x, L)
+
+        lo = clamp(pos[1] if len(pos) > 1 else None, z3.IntVal(0))
+        hi = clamp(pos[2] if len(pos) > 2 else None, L)
+        window = z3.SubString(z, lo, hi - lo) if not I.feasible(st, z3.Not(hi >= lo)) else z3.If(hi > lo, z3.SubString(z, lo, hi - lo), z3.StringVal(""))
+        found = z3.And(lo <= hi, z3.Contains(window, sub))
+        r = fresh(f"str.{name}", z3.IntSort())
+        n = z3.Length(sub)
+        if name in ("find", "index"):
+            # first occurrence: position of sub in the window
+            ax = z3.And(r == lo + z3.IndexOf(window, sub, 0))
+        else:
+            ax = z3.And(r >= lo, r + n <= hi, z3.SubString(z, r, n) == sub, z3.Not(z3.Contains(z3.SubString(z, r + 1, hi - (r + 1)), sub)))
+        for s2, b in I.branch(st, found):
+            if b:
+                s2.pc.append(ax)
+                yield s2, r
+            elif name in ("find", "rfind"):
+                yield s2, -1
+            else:
+                yield s2, Raised(SExc("ValueError", note="substring not found"))
+        return
+    if name in ("find", "index", "rfind", "rindex", "count"):
         yield st, fresh(f"str.{name}", z3.IntSort())
         return
     if name in ("split", "rsplit", "splitlines"):
